@@ -147,7 +147,46 @@ func rawOptsArea(r *Rng, valid bool) []byte {
 // valid packets, and malformed variants (truncation, length perturbation,
 // cookie flips, splices).
 func genWire4(r *Rng) ([]byte, string) {
-	switch r.Intn(10) {
+	switch r.Intn(11) {
+	case 10:
+		// a whole header field (or the cookie) replaced by a sentinel pattern: all
+		// zero, all ones, its own bytes reversed, or one byte of it changed - a decoder
+		// that tolerates "no cookie" / "unset field" spellings shows only here
+		// (seeded change C04-11: an all-zero cookie accepted as plain BOOTP)
+		var b []byte
+		if r.Chance(1, 2) {
+			b = genPkt4(r, true).ToBytes()
+		} else {
+			b = append(r.Bytes(236), 99, 130, 83, 99)
+			b = append(b, rawOptsArea(r, true)...)
+		}
+		fields := [][2]int{{236, 4}, {236, 4}, {236, 4}, {0, 1}, {1, 1}, {2, 1}, {3, 1}, {4, 4}, {8, 2}, {10, 2},
+			{12, 4}, {16, 4}, {20, 4}, {24, 4}, {28, 16}, {44, 64}, {108, 128}, {236, 2}, {238, 2}, {232, 8}, {236, 5}}
+		f := fields[r.Intn(len(fields))]
+		if f[0]+f[1] > len(b) {
+			return b, "field-sentinel"
+		}
+		seg := b[f[0] : f[0]+f[1]]
+		switch r.Intn(5) {
+		case 0, 1:
+			for i := range seg {
+				seg[i] = 0
+			}
+		case 2:
+			for i := range seg {
+				seg[i] = 255
+			}
+		case 3:
+			for i, j := 0, len(seg)-1; i < j; i, j = i+1, j-1 {
+				seg[i], seg[j] = seg[j], seg[i]
+			}
+		default:
+			seg[r.Intn(len(seg))] ^= byte(1 << r.Intn(8))
+		}
+		if r.Chance(1, 4) {
+			b = b[:r.Range(min(240, len(b)), len(b))]
+		}
+		return b, "field-sentinel"
 	case 0, 1, 2:
 		p := genPkt4(r, true)
 		return p.ToBytes(), "encoded"
